@@ -144,7 +144,7 @@ Section Conform.
     | SNum w, ANum w' _ => if Nat.eqb w w' then None else Some "integer width"
     | SNum 1, AChar8 => None
     | SSpare n, APad n' => if Nat.eqb n n' then None else Some "number of spare bytes"
-    | SText n, AText n' => if Nat.eqb n n' then None else Some "text width"
+    | SText n, AText n' _ => if Nat.eqb n n' then None else Some "text width"
     | SEnum tbl, AEnum vals =>
         match find_table tbl tables with
         | None => Some "unknown specification table"
@@ -195,7 +195,7 @@ Section Conform.
         zip_problems (append ctx "element ") (merge_spec (map (flat_field "" "") elt)) (merge_lay lelt) ++
         (if (Nat.eqb (Nat.modulo 1 padm * padk) (Nat.modulo 1 padm' * padk') && Nat.eqb (Nat.modulo 2 padm * padk) (Nat.modulo 2 padm' * padk') &&
              Nat.eqb (Nat.modulo 3 padm * padk) (Nat.modulo 3 padm' * padk'))%bool then [] else [append ctx "padding after the array"])
-    | STText maxlen align, TTextEof max' align' =>
+    | STText maxlen align, TTextEof max' align' _ =>
         if (Nat.eqb maxlen max' && Nat.eqb align align')%bool then [] else [append ctx "variable text: maximum or alignment"]
     | STWords _, TWords => []
     | _, _ => [append ctx "kind of variable tail"]
